@@ -3,6 +3,7 @@
   Model: `Snmp.Usm.generate` / `processIncoming`, generated flag code and `is_confirmed` table.
 -/
 import Snmp.Lemmas.UsmLemmas
+import Snmp.Lemmas.RawDigestLemmas
 namespace Snmp.Props.C10
 open Snmp Snmp.Usm Snmp.Ber
 
@@ -177,5 +178,43 @@ theorem C10_accepts_counters (cr : Crypto) (c : Creds) (im : InMsg) (s : Spec.Sc
 example : hasUsmError { tag := 162, requestId := 1, a := 0, b := 0, varbinds := [([1, 3, 6, 1, 6, 3, 15, 1, 1, 2, 0], .counter32 7)] } = false
     ∧ hasUsmError { tag := 168, requestId := 1, a := 0, b := 0, varbinds := [([1, 3, 6, 1, 6, 3, 15, 1, 1, 2, 0], .counter32 7)] } = true := by
   decide
+
+/-- `reset_raw_digest` (index arithmetic with `get_value_slice`, mirrored) on EVERY datagram of the
+    SNMPv3 shape — any identifier octets, any admissible definite length form at each of the ten
+    TLVs it passes, any contents, anything after the message: when the fifth field of the security
+    parameters has 12 octets, exactly these are replaced by zeroes and every other octet is kept;
+    otherwise the message is refused. (The 127-octet defect `87299d4` was a re-encoding at this
+    place; the window is now located in the octets as received.) -/
+theorem C10_raw_digest_window (s : RawDigest.Shape) (p : RawDigest.Parts) (d : Bytes) (hok : s.ok p d) :
+    RawDigest.resetRawDigest (RawDigest.wire s p d) =
+      if d.length = 12 then .ok (RawDigest.wire s p RawDigest.zeros12) else .error .digestLength :=
+  RawDigest.reset_wire s p d hok
+
+/-- An authentic response as it arrives: the agent computed the digest over its datagram with
+    twelve zero octets in the digest field (RFC 3414 §6.3.1) and sent it with the digest filled
+    in, in whatever length forms it likes.  What `verify_authentication` compares is exactly that,
+    so the message is accepted and decoded to its content. -/
+theorem C10_accepts_wire (cr : Crypto) (c : Creds) (m : Spec.V3Msg) (sc : Spec.ScopedPdu)
+    (s : RawDigest.Shape) (p : RawDigest.Parts) (d : Bytes) (hok : s.ok p d)
+    (huser : m.user = c.user)
+    (hauthf : authFlag m = c.auth.isSome) (hprivf : privFlag m = c.priv.isSome)
+    (hfield : m.authParams = d)
+    (hagent : ∀ pw, c.auth = some pw → d = cr.mac (cr.loc pw m.engineId) (RawDigest.wire s p RawDigest.zeros12) ∧ d.length = 12)
+    (hpayload : extractScoped cr c m = .ok sc) (hnoerr : hasUsmError sc.pdu = false) :
+    processIncoming cr c (inMsgOfWire m (RawDigest.wire s p d)) = .ok sc := by
+  apply C10_accepts_authentic cr c _ sc huser hauthf hprivf _ hpayload hnoerr
+  intro pw hpw
+  rcases hagent pw hpw with ⟨hmac, hlen⟩
+  refine ⟨RawDigest.wire s p RawDigest.zeros12, ?_, ?_⟩
+  · simp [inMsgOfWire, RawDigest.reset_wire s p d hok, hlen]
+  · show m.authParams = _
+    rw [hfield]; exact hmac
+
+/-- non-vacuity of the shape: the smallest SNMPv3 skeleton (minimal length octets, a 12-octet
+    digest) meets the hypotheses -/
+example : RawDigest.Shape.ok
+      ⟨.minimal, .minimal, .minimal, .minimal, .minimal, .minimal, .minimal, .minimal, .minimal, .minimal, 48, 2, 48, 4, 48, 4, 2, 2, 4, 4⟩
+      ⟨[3], [], [], [0], [0], [], [4, 0], [48, 0], []⟩ (List.replicate 12 7) := by
+  simp [RawDigest.Shape.ok, LenForm.ok, RawDigest.body, RawDigest.sec, RawDigest.inner, Spec.tlv, specLength]
 
 end Snmp.Props.C10
